@@ -48,6 +48,8 @@ def models(rec_key='ser'):
         return okerr(Obj('ser_output'), lambda s2: rec(s2, ('unit_variant', keystr(I_, s2, a[1]), keystr(I_, s2, a[3]))), 'variant')
     def m_ser_str(I_, s, fr, c, a, d, de, rb):
         v = dr(I_, s, a[1]); return okerr(Obj('ser_output'), lambda s2: rec(s2, ('str', v)), 'str')
+    def m_newtype_struct(I_, s, fr, c, a, d, de, rb):
+        v = dr(I_, s, a[2]); return okerr(Obj('ser_output'), lambda s2: rec(s2, ('str', v)), 'newtype')
     def m_newtype_variant(I_, s, fr, c, a, d, de, rb):
         return okerr(Obj('ser_output'), lambda s2: rec(s2, ('newtype_variant', keystr(I_, s2, a[1]), keystr(I_, s2, a[3]), dr(I_, s2, a[4]))), 'variant')
     def m_is_none(I_, s, fr, c, a, d, de, rb):
@@ -56,8 +58,18 @@ def models(rec_key='ser'):
     return [(RXc(r' as schema::_::_serde::Serializer>::serialize_map$| as Serializer>::serialize_map$'), m_ser_map), (RXc(r'Serializer>::serialize_struct$'), m_ser_struct),
             (RXc(r'as SerializeMap>::serialize_entry::<'), m_entry), (RXc(r'as SerializeStruct>::serialize_field::<'), m_entry), (RXc(r'as (SerializeMap|SerializeStruct)>::end$'), m_end),
             (RXc(r' as Serialize>::serialize::<.*FlatMapSerializer<'), m_flatten), (RXc(r'Serializer>::serialize_unit_variant$'), m_unit_variant), (RXc(r'Serializer>::serialize_str$'), m_ser_str),
-            (RXc(r'Serializer>::serialize_newtype_variant::<'), m_newtype_variant), (RXc(r'^std::option::Option::<.*>::is_none$'), m_is_none), (RXc(r'^HashMap::<.*>::is_empty$'), m_is_none),
+            (RXc(r'Serializer>::serialize_newtype_variant::<'), m_newtype_variant), (RXc(r'Serializer>::serialize_newtype_struct::<'), m_newtype_struct), (RXc(r'^PathHashPrefix::value$'), None), (RXc(r'^std::option::Option::<.*>::is_none$'), m_is_none), (RXc(r'^HashMap::<.*>::is_empty$'), m_is_none),
             (RXc(r'^<std::string::String as (Deref>::deref|AsRef<str>>::as_ref)$'), m_deref_field), (RXc(r'^<&?str as AsRef<str>>::as_ref$'), m_deref_field), (RXc(r'^PathPattern::value$|^TargetName::raw$'), None)]
+
+def tuple_struct_arity(name):
+    import glob, os
+    from harness import REPO
+    for f in glob.glob(os.path.join(REPO, 'tough', 'src', '**', '*.rs'), recursive=True):
+        m = re.search(r'struct\s+%s\s*\(([^;{]*)\)\s*;' % re.escape(name), open(f).read())
+        if m:
+            inner = m.group(1).strip()
+            return 0 if not inner else len(split_top(inner))
+    return None
 
 def leafval(struct, fname): return Obj('fieldval', uid=next(_uid), of=f'{struct}.{fname}')
 
@@ -79,7 +91,11 @@ def check(R, tier):
             elif tname in kinds['enums']:
                 variants_ = [(i, None) for i in range(len(layout.variants(tname)))]
             else:
-                R.notes.append(f'{tname}: layout not found, skipped'); continue
+                # tuple struct (e.g. `pub struct PathHashPrefix(String);`): positional fields read from the source
+                arity = tuple_struct_arity(tname)
+                if arity is None:
+                    R.inconclusive.append(f'{tname} has a Serialize impl but its layout could not be read: not checked'); continue
+                variants_ = [(None, [str(i) for i in range(arity)])]
             for vidx, fields_ in variants_:
                 label = f'<{tname} as Serialize>' + (f'[{layout.variants(tname)[vidx]}]' if vidx is not None else '')
                 st = State(); st.env['fs'] = {}; st.env['ser'] = []
